@@ -2,6 +2,11 @@ NOTES = ("All checks: ./check <ID> --tier quick|thorough, VERIF_SEED respected, 
          "fix: commits in /repo are listed in known_findings.json as fixed entries.")
 NOT_APPLICABLE = {}
 CHECKS = {
+ "C18": {
+  "technique": "Hypothesis property-based testing / robustness fuzzing of generated test modules built from adversarial fragments, with a crash-freedom and non-overlap oracle on both drivers",
+  "text": "Modules assembled from 15 fragment kinds (failing and raising tests, nested snapshots replaced / shifted / only aligned, raising comparisons, unused and half-used sites, two operations on one site, changing nested structure) are run with every approved set; collecting, applying and writing must not raise, recorded replacements must be pairwise disjoint, results must parse; real sessions must end without INTERNALERROR or traceback and with exit status 0/1. Exploration.",
+  "note": "fragments stay inside documented usage (`in` on lists, [key] on dict displays); the non-overlap check is made on the recorder independently of the internal assert",
+ },
  "C10": {
   "technique": "Hypothesis property-based testing of generated containers mixing managed and user-controlled expressions; oracle = textual tracing of uniquely tagged user-controlled segments plus a value-level alignment model for the cases the property decides",
   "text": "Containers (list, tuple, dict, dataclass/attrs/namedtuple calls, nested) mixing managed elements with Is(), f-strings, inner snapshots, dirty-equals stand-ins and star-expressions are run with every approved set; each user-controlled segment must appear verbatim at most once and in order, must survive under surviving keys, in the equal common prefix/suffix and under the replacement rule, star containers keep their text, managed siblings are repaired. Exploration.",
